@@ -19,7 +19,7 @@ use std::path::Path;
 use tree_sitter::Tree;
 use tree_sitter_graph::ast::File;
 use tree_sitter_graph::functions::Functions;
-use tree_sitter_graph::{ExecutionConfig, NoCancellation, Variables};
+use tree_sitter_graph::{ExecutionConfig, Identifier, NoCancellation, Variables};
 
 pub struct C12;
 
@@ -55,12 +55,22 @@ fn load_transcript(text: &str) -> Result<(File, String), String> {
     }
 }
 
+/// `zq_debug_attributes` among the globals is not a global: it switches the debug attributes on
+const DEBUG_KEY: &str = "zq_debug_attributes";
+
 fn exec_transcript(file: &File, tree: &Tree, source: &str, globals: &BTreeMap<String, MVal>, functions: &Functions, lazy: bool) -> String {
     let ti = TreeInfo::new(tree);
+    let debug = globals.contains_key(DEBUG_KEY);
+    let mut globals = globals.clone();
+    globals.remove(DEBUG_KEY);
+    let globals = &globals;
     let vars: Variables = exec::make_globals(globals, &|_| None);
     let before: BTreeMap<String, String> = vars.iter().map(|(k, v)| (k.as_str().to_string(), format!("{:?}", v))).collect();
     let r = catch(|| {
-        let config = ExecutionConfig::new(functions, &vars).lazy(lazy);
+        let mut config = ExecutionConfig::new(functions, &vars).lazy(lazy);
+        if debug {
+            config = config.debug_attributes(Identifier::from("dbg_l"), Identifier::from("dbg_v"), Identifier::from("dbg_m"));
+        }
         match file.execute(tree, source, &config, &NoCancellation) {
             Ok(g) => match observe_graph(&g, &ti) {
                 Ok(og) => {
@@ -90,6 +100,9 @@ fn exec_transcript(file: &File, tree: &Tree, source: &str, globals: &BTreeMap<St
 /// Outcome and number of polls of one execution under a flag that fails from poll `fail_at` on.
 fn exec_with_flag(file: &File, tree: &Tree, source: &str, globals: &BTreeMap<String, MVal>, functions: &Functions, lazy: bool, fail_at: u64) -> (String, u64) {
     let ti = TreeInfo::new(tree);
+    let mut globals = globals.clone();
+    globals.remove(DEBUG_KEY);
+    let globals = &globals;
     let vars: Variables = exec::make_globals(globals, &|_| None);
     let flag = exec::CountingFlag::new(fail_at);
     let r = catch(|| {
@@ -111,7 +124,7 @@ fn exec_with_flag(file: &File, tree: &Tree, source: &str, globals: &BTreeMap<Str
 
 /// programs where "which error is reported" has room to vary
 fn special_text(rng: &mut Rng) -> (String, &'static str) {
-    match rng.below(9) {
+    match rng.below(10) {
         6 => (
             "(identifier) @id { node n attr (n) idx = (named-child-index @id), txt = (source-text @id), cnt = (named-child-count @id) }\n(argument_list (_) @arg) { node m attr (m) arg_idx = (named-child-index @arg), ty = (node-type @arg) }\n".into(),
             "syntax_functions_on_every_node",
@@ -120,6 +133,12 @@ fn special_text(rng: &mut Rng) -> (String, &'static str) {
         8 => (
             "(module) @m { node n attr (n) a = (node), b = (node), c = (node), d = (node) let x = (node) let y = (node) attr (n) f = y, e = x attr ((node)) g = (node), h = (node) print @m }\n".into(),
             "node_creating_values_in_one_statement",
+        ),
+        9 => (
+            // with debug attributes: a conflict between an attribute the program sets and one the
+            // executor wrote, in an execution that follows successful ones on other trees
+            "(pass_statement) { let x = (node) attr (x) dbg_l = \"mine\", dbg_v = \"mine too\" }\n(identifier) { node y attr (y) dbg_l = \"mine\" }\n(integer) { node z attr (z) k = 1 }\n".into(),
+            "conflict_with_a_debug_attribute",
         ),
         0 => ("(call function: (_) @zeta arguments: (_) @alpha) @mid { node n }\n".into(), "several_unused_captures"),
         1 => ("(assignment left: (_) @l right: (_) @r) @a { node n }\n(identifier) @q @p { node m }\n".into(), "several_unused_captures"),
@@ -153,7 +172,11 @@ pub struct CaseInput {
 pub fn make_case(rng: &mut Rng) -> CaseInput {
     let (text, globals, kind) = if rng.chance(1, 4) {
         let (t, k) = special_text(rng);
-        (t, BTreeMap::new(), k)
+        let mut g = BTreeMap::new();
+        if k == "conflict_with_a_debug_attribute" {
+            g.insert(DEBUG_KEY.to_string(), MVal::Bool(true));
+        }
+        (t, g, k)
     } else {
         let mut cfg = GenCfg::order_insensitive();
         cfg.fault_pct = 30;
@@ -161,7 +184,11 @@ pub fn make_case(rng: &mut Rng) -> CaseInput {
         let c = build_case(rng, &cfg, 20, 0, 1);
         (c.text, c.prog.globals, "generated")
     };
-    let sources = (0..3).map(|_| py::gen_any_source(rng, 8, 15)).collect();
+    let sources: Vec<String> = if kind == "conflict_with_a_debug_attribute" {
+        vec!["x\n".to_string(), "pass\n".to_string(), "1\npass\n".to_string()]
+    } else {
+        (0..3).map(|_| py::gen_any_source(rng, 8, 15)).collect()
+    };
     // similar shapes, different children positions: same allocation sizes, recycled addresses
     let short_lived = (0..5).map(|k| format!("{}f(a{}, b, c)\nx = y\n", "pass\n".repeat(k % 3), k)).collect();
     CaseInput { text, sources, short_lived, globals, kind }
